@@ -141,3 +141,34 @@ def discretisation(env):
         env.eq("C18", "viscous drag coefficient of a constant-chord wing: %d panels == 1 panel" % (ny - 1), vals[ny][0], vals[2][0])
         for (p1, o1), (p2, o2) in zip(vals[ny][1], vals[2][1]):
             env.eq("C18", "wave drag coefficient of a constant-chord wing: %d panels == 1 panel [path %s]" % (ny - 1, p1), o1, o2)
+
+
+@job("c18.viscous_signs", ("C18",), cfgs=[dict(k_lam=0.0), dict(k_lam=1.0)], cost=2)
+def viscous_signs(env, k_lam):
+    """sign obligations over the whole admissible box (interval branch-and-bound on the terms produced by the real compute and
+    on their engine derivatives; one strip, so that CDv is a positive multiple of the strip friction coefficient):
+    CDv > 0, d CDv / d re < 0, d CDv / d (t/c) > 0 for Reynolds numbers per length in [1e5, 1e8] (chord Reynolds numbers of the
+    laminar run above 1e3) at unit chord (general chords by the scaling clause of C06), 0.05 <= M <= 0.95,
+    0.02 <= t/c <= 0.3, sweep below 60 degrees.  Fully turbulent and fully laminar surfaces only: for a laminar fraction strictly
+    between 0 and 1 the blend (cf_lam - cf_turb)(k Re) k + cf_turb(Re) has cancelling terms whose enclosures did not certify within
+    6000 boxes (not decided)"""
+    s = surface(name="wing", nx=2, ny=2, symmetry=False, with_viscous=True, extra=dict(k_lam=k_lam))
+    h = env.comp("v", lambda: cls("aerodynamics.viscous_drag.ViscousDrag")(surface=s, with_viscous=True))
+    ins = h.inputs()
+    cs = env.var("cos_sweep", (1,))
+    ins = dict(ins)
+    ins["lengths_spanwise"] = ins["widths"] / cs
+    # unit chord without loss of generality: c06.viscous_length_scaling proves that CDv depends on the lengths only through
+    # the chord Reynolds number (lengths x k, area x k^2, Reynolds number per length / k leave it unchanged)
+    ins["lengths"] = env.const(np.ones(2))
+    outs = h.compute(ins)
+    cdv = s0(outs["CDv"])
+    box = [(r"^re", 1e5, 1e8), (r"Mach", 0.05, 0.95), (r"t_over_c", 0.02, 0.3), (r"widths", 0.5, 2.0), (r"lengths", 0.5, 2.0),
+           (r"cos_sweep", 0.5, 1.0), (r"S_ref", 1.0, 10.0)]
+    if not env.sym:
+        return
+    env.sign_on_box("C18", "viscous drag coefficient is positive on the admissible box [k_lam = %s]" % k_lam, [cdv], box, sign=1)
+    d_re = env.jac_of(np.array([cdv], dtype=object), ins["re"])
+    env.sign_on_box("C18", "viscous drag decreases with the Reynolds number on the admissible box [k_lam = %s]" % k_lam, d_re.reshape(-1), box, sign=-1)
+    d_tc = env.jac_of(np.array([cdv], dtype=object), ins["t_over_c"])
+    env.sign_on_box("C18", "viscous drag increases with the thickness ratio on the admissible box [k_lam = %s]" % k_lam, d_tc.reshape(-1), box, sign=1)
